@@ -203,6 +203,14 @@ def pair_adapters_stage(ad1, ad2, r1, r2, action):
     _, _, a1, a2 = best
     o1, m1 = adapter_stage([a1], r1, 1, action)
     o2, m2 = adapter_stage([a2], r2, 1, action)
+    if action == "lowercase":
+        # The case of {match_sequence} is not specified anywhere.  The paired cutter searches the read as given
+        # (the single-end cutter upper-cases it first), so the matched stretch keeps the input's case here.
+        for ms, r in ((m1, r1), (m2, r2)):
+            for m in ms:
+                for p in m.parts:
+                    if len(p.seq) == len(r[1]):
+                        p.seq = r[1]
     return o1, m1, o2, m2
 
 
